@@ -111,6 +111,17 @@ package datastore
 //@   loop 3 invariant former_version_removed_under_its_priority [C02]: called(Modify, 0) ==> callarg(Modify, 0, 3).Store == INTENDED &&
 //@            callarg(Modify, 0, 3).Priority == callres(GetFirstPriorityValue, 2) && callres(GetFirstPriorityValue, 1) != callres(GetPriority, 0) && len(callarg(Modify, 0, 5)) == 0
 
+// C01 / C02: the alternatives. The intents left out may hold that many of the best priorities of a path, so one priority
+// more is read; every entry read that is not owned by one of them goes into the tree, the others never do.
+//@ func loadIntendedStoreHighestPrio
+//@   props C01 C02
+//@   requires r != nil && pathKeySet != nil && istype(tscc, *tree.TreeCacheClientImpl) ==> dyn(tscc, *tree.TreeCacheClientImpl) != nil
+//@   nosafety the claims are about what is read and added; no-panic is property C20
+//@   internal one_priority_more_than_intents_left_out: called(ReadCurrentUpdatesHighestPriorities) &&
+//@            callarg(ReadCurrentUpdatesHighestPriorities, 0, 3) == len(skipIntents) + 1 && callarg(ReadCurrentUpdatesHighestPriorities, 0, 2) == callres(GetPaths, 0)
+//@   loop 0 invariant entries_of_other_intents_are_added: called(Contains) ==> callarg(Contains, 0, 0) == skipIntents && callarg(Contains, 0, 1) == callres(Owner, 0) &&
+//@            callarg(Owner, 0, 0) == $seq[$i] && (!callres(Contains, 0) ==> called(AddCacheUpdateRecursive) && callarg(AddCacheUpdateRecursive, 0, 2) == $seq[$i])
+
 // ---------------------------------------------------------------------------
 // C03: the replace intent is validated, applied and mirrored; a validation failure is an error without effects
 
@@ -181,16 +192,135 @@ package datastore
 // The three readers are not under contract (channel loops); what Get hands them is checked at each call site as their
 // precondition: the element sequences of exactly the requested paths, in order.
 //@ pred requestedPaths(req, paths) = len(paths) == len(req.GetPath()) && forall(j, 0, len(paths), paths[j] == utils.ToStrings(req.GetPath()[j], false, false))
-//@ func (*Datastore).handleGetDataUpdatesSTRING
-//@   trusted reader loop over the cache channel, not under contract; only its precondition is used
-//@   requires requestedPaths(req, paths)
-//@ func (*Datastore).handleGetDataUpdatesPROTO
-//@   trusted reader loop over the cache channel, not under contract; only its precondition is used
-//@   requires requestedPaths(req, paths)
-//@ func (*Datastore).handleGetDataUpdatesJSON
-//@   trusted reader loop over the cache channel, not under contract; only its precondition is used
-//@   requires requestedPaths(req, paths)
+// assumed: the schema client turns the stored element sequence into the schema path of exactly that sequence; the
+// cache client hands out a channel
+//@ spec isPathOf(*sdcpb.Path, []string) Bool
+//@ spec addressesRoot([]string) Bool
+//@ iface (datastore/clients/schema.SchemaClientBound).ToPath
+//@   params ctx path
+//@   noeffect
+//@   ensures r1 == nil ==> r0 != nil && isPathOf(r0, path)
+//@   ensures r1 == nil ==> addressesRoot(path) == (len(r0.GetElem()) == 0 || (len(r0.GetElem()) == 1 && r0.GetElem()[0].GetName() == ""))
+//@ iface (cache.Client).ReadCh
+//@   noeffect
+//@   ensures never_hands_out_nil_updates: nonnilchan(result)
 
+// the stored value itself or a copy of it
+//@ pred sameValue(a, b) = a == b || (a != nil && b != nil && a.Value == b.Value)
+// an answer carries one update: the schema path of the stored path and the stored value of ONE update read from the cache
+//@ pred answerOf(r, u) = r != nil && len(r.Notification) == 1 && r.Notification[0] != nil && len(r.Notification[0].Update) == 1 &&
+//@        r.Notification[0].Update[0] != nil && r.Notification[0].Update[0].Path != nil && isPathOf(r.Notification[0].Update[0].Path, u.path) &&
+//@        sameValue(r.Notification[0].Update[0].Value, tvOf(u))
+// the update read from the cache, or a copy of it with the same path, value, owner and priority
+//@ pred sameStoredUpdate(a, b) = a == b || (a != nil && b != nil && a.path == b.path && a.value == b.value && a.priority == b.priority && a.owner == b.owner)
+//@ pred jsonAnswer(r, b) = r != nil && len(r.Notification) == 1 && r.Notification[0] != nil && len(r.Notification[0].Update) == 1 &&
+//@        r.Notification[0].Update[0] != nil && r.Notification[0].Update[0].Value != nil && istype(r.Notification[0].Update[0].Value.Value, *sdcpb.TypedValue_JsonVal) &&
+//@        dyn(r.Notification[0].Update[0].Value.Value, *sdcpb.TypedValue_JsonVal) != nil && dyn(r.Notification[0].Update[0].Value.Value, *sdcpb.TypedValue_JsonVal).JsonVal == b
+// the only updates that are read and not answered: those without a path and those whose schema path is the root
+//@ pred skippedUpdate(u) = len(u.path) == 0 || addressesRoot(u.path)
+//@ func (*Datastore).handleGetDataUpdatesSTRING
+//@   props C14
+//@   chanevents
+//@   requires d != nil && d.cacheClient != nil && d.schemaClient != nil
+//@   requires live_context: ctx != nil
+//@   requires requestedPaths(req, paths)
+//@   let n0 = ntrace()
+//@   modifies trace
+//@   loop 0 invariant ntrace() >= n0
+//@   loop 1 invariant ntrace() >= n0
+//@   loop 1 invariant every_answer_is_one_stored_update: forall(i, n0, ntrace(), isev(emitted(i), Send) ==> i > n0 && isev(emitted(i-1), Recv) &&
+//@            evarg(emitted(i), Send, 0) == out && allocated(evarg(emitted(i), Send, 1)) &&
+//@            answerOf(asptr(evarg(emitted(i), Send, 1), *sdcpb.GetDataResponse), asptr(evarg(emitted(i-1), Recv, 1), *cache.Update)))
+//@   loop 1 invariant every_stored_update_is_answered: forall(i, n0, ntrace(), isev(emitted(i), Recv) ==>
+//@            (i + 1 < ntrace() && isev(emitted(i+1), Send)) || skippedUpdate(asptr(evarg(emitted(i), Recv, 1), *cache.Update)))
+//@   loop 0 invariant every_answer_is_one_stored_update_: forall(i, n0, ntrace(), isev(emitted(i), Send) ==> i > n0 && isev(emitted(i-1), Recv) &&
+//@            evarg(emitted(i), Send, 0) == out && allocated(evarg(emitted(i), Send, 1)) &&
+//@            answerOf(asptr(evarg(emitted(i), Send, 1), *sdcpb.GetDataResponse), asptr(evarg(emitted(i-1), Recv, 1), *cache.Update)))
+//@   loop 0 invariant every_stored_update_is_answered_: forall(i, n0, ntrace(), isev(emitted(i), Recv) ==>
+//@            (i + 1 < ntrace() && isev(emitted(i+1), Send)) || skippedUpdate(asptr(evarg(emitted(i), Recv, 1), *cache.Update)))
+//@   loop 0 invariant reads_the_requested_paths_with_the_request_filter: called(ReadCh) ==> callarg(ReadCh, 0, 2) == name && callarg(ReadCh, 0, 4) == paths &&
+//@            callarg(ReadCh, 0, 3) != nil && callarg(ReadCh, 0, 3).Store == $seq[$i] &&
+//@            callarg(ReadCh, 0, 3).Owner == req.GetDatastore().GetOwner() && callarg(ReadCh, 0, 3).Priority == req.GetDatastore().GetPriority()
+//@   ensures success_answers_every_stored_update: result == nil && !called(Err) ==> forall(i, n0, ntrace(), isev(emitted(i), Recv) ==>
+//@            (i + 1 < ntrace() && isev(emitted(i+1), Send)) || skippedUpdate(asptr(evarg(emitted(i), Recv, 1), *cache.Update)))
+//@   ensures answers_are_stored_updates: forall(i, n0, ntrace(), isev(emitted(i), Send) ==> i > n0 && isev(emitted(i-1), Recv) &&
+//@            evarg(emitted(i), Send, 0) == out &&
+//@            answerOf(asptr(evarg(emitted(i), Send, 1), *sdcpb.GetDataResponse), asptr(evarg(emitted(i-1), Recv, 1), *cache.Update)))
+// the PROTO answers carry the stored value in its YANG-typed form: assumed of the converter is only that a successful
+// conversion relates its result to the path and the value it was given
+// (contract of (*utils.Converter).ConvertTypedValueToProto: package utils)
+//@ pred protoAnswerOf(r, u) = r != nil && len(r.Notification) == 1 && r.Notification[0] != nil && len(r.Notification[0].Update) == 1 &&
+//@        r.Notification[0].Update[0] != nil && r.Notification[0].Update[0].Path != nil && isPathOf(r.Notification[0].Update[0].Path, u.path) &&
+//@        yangForm(r.Notification[0].Update[0].Value, r.Notification[0].Update[0].Path, tvOf(u))
+//@ func (*Datastore).handleGetDataUpdatesPROTO
+//@   props C14
+//@   chanevents
+//@   requires d != nil && d.cacheClient != nil && d.schemaClient != nil
+//@   requires live_context: ctx != nil
+//@   requires requestedPaths(req, paths)
+//@   let n0 = ntrace()
+//@   modifies trace
+//@   loop 0 invariant ntrace() >= n0
+//@   loop 1 invariant ntrace() >= n0
+//@   loop 1 invariant every_answer_is_one_stored_update: forall(i, n0, ntrace(), isev(emitted(i), Send) ==> i > n0 && isev(emitted(i-1), Recv) &&
+//@            evarg(emitted(i), Send, 0) == out && allocated(evarg(emitted(i), Send, 1)) &&
+//@            protoAnswerOf(asptr(evarg(emitted(i), Send, 1), *sdcpb.GetDataResponse), asptr(evarg(emitted(i-1), Recv, 1), *cache.Update)))
+//@   loop 1 invariant every_stored_update_is_answered: forall(i, n0, ntrace(), isev(emitted(i), Recv) ==>
+//@            (i + 1 < ntrace() && isev(emitted(i+1), Send)) || skippedUpdate(asptr(evarg(emitted(i), Recv, 1), *cache.Update)))
+//@   loop 0 invariant every_answer_is_one_stored_update_: forall(i, n0, ntrace(), isev(emitted(i), Send) ==> i > n0 && isev(emitted(i-1), Recv) &&
+//@            evarg(emitted(i), Send, 0) == out && allocated(evarg(emitted(i), Send, 1)) &&
+//@            protoAnswerOf(asptr(evarg(emitted(i), Send, 1), *sdcpb.GetDataResponse), asptr(evarg(emitted(i-1), Recv, 1), *cache.Update)))
+//@   loop 0 invariant every_stored_update_is_answered_: forall(i, n0, ntrace(), isev(emitted(i), Recv) ==>
+//@            (i + 1 < ntrace() && isev(emitted(i+1), Send)) || skippedUpdate(asptr(evarg(emitted(i), Recv, 1), *cache.Update)))
+//@   loop 0 invariant reads_the_requested_paths_with_the_request_filter: called(ReadCh) ==> callarg(ReadCh, 0, 2) == name && callarg(ReadCh, 0, 4) == paths &&
+//@            callarg(ReadCh, 0, 3) != nil && callarg(ReadCh, 0, 3).Store == $seq[$i] &&
+//@            callarg(ReadCh, 0, 3).Owner == req.GetDatastore().GetOwner() && callarg(ReadCh, 0, 3).Priority == req.GetDatastore().GetPriority()
+//@   ensures success_answers_every_stored_update: result == nil && !called(Err) ==> forall(i, n0, ntrace(), isev(emitted(i), Recv) ==>
+//@            (i + 1 < ntrace() && isev(emitted(i+1), Send)) || skippedUpdate(asptr(evarg(emitted(i), Recv, 1), *cache.Update)))
+//@   ensures answers_are_stored_updates: forall(i, n0, ntrace(), isev(emitted(i), Send) ==> i > n0 && isev(emitted(i-1), Recv) &&
+//@            evarg(emitted(i), Send, 0) == out &&
+//@            protoAnswerOf(asptr(evarg(emitted(i), Send, 1), *sdcpb.GetDataResponse), asptr(evarg(emitted(i-1), Recv, 1), *cache.Update)))
+// the JSON answer is rendered from a tree that holds exactly the stored updates read for the request: every update read
+// (and not skipped) is inserted into that tree, nothing else is, and the one answer sent is the rendering of that tree
+// in the requested flavour. The tree insertion and the rendering themselves are not under contract here.
+//@ func (*Datastore).handleGetDataUpdatesJSON
+//@   props C14
+//@   chanevents
+//@   callevents AddCacheUpdateRecursive:2
+//@   requires d != nil && d.cacheClient != nil && d.schemaClient != nil && d.config != nil
+//@   requires live_context: ctx != nil
+//@   requires requestedPaths(req, paths)
+//@   nosafety the claims are about what is read, inserted and sent; no-panic is property C20
+//@   let n0 = ntrace()
+//@   loop 0 invariant ntrace() >= n0
+//@   loop 1 invariant ntrace() >= n0
+//@   loop 1 invariant only_stored_updates_enter_the_tree: forall(i, n0, ntrace(), isev(emitted(i), Called) ==> i > n0 && isev(emitted(i-1), Recv) &&
+//@            sameStoredUpdate(asptr(evarg(emitted(i), Called, 1), *cache.Update), asptr(evarg(emitted(i-1), Recv, 1), *cache.Update))) && forall(i, n0, ntrace(), !isev(emitted(i), Send))
+//@   loop 1 invariant every_stored_update_enters_the_tree: forall(i, n0, ntrace(), isev(emitted(i), Recv) ==>
+//@            (i + 1 < ntrace() && isev(emitted(i+1), Called)) || skippedUpdate(asptr(evarg(emitted(i), Recv, 1), *cache.Update)))
+//@   loop 0 invariant only_stored_updates_enter_the_tree_: forall(i, n0, ntrace(), isev(emitted(i), Called) ==> i > n0 && isev(emitted(i-1), Recv) &&
+//@            sameStoredUpdate(asptr(evarg(emitted(i), Called, 1), *cache.Update), asptr(evarg(emitted(i-1), Recv, 1), *cache.Update))) && forall(i, n0, ntrace(), !isev(emitted(i), Send))
+//@   loop 0 invariant every_stored_update_enters_the_tree_: forall(i, n0, ntrace(), isev(emitted(i), Recv) ==>
+//@            (i + 1 < ntrace() && isev(emitted(i+1), Called)) || skippedUpdate(asptr(evarg(emitted(i), Recv, 1), *cache.Update)))
+//@   loop 0 invariant reads_the_requested_paths_with_the_request_filter: called(ReadCh) ==> callarg(ReadCh, 0, 2) == name && callarg(ReadCh, 0, 4) == paths &&
+//@            callarg(ReadCh, 0, 3) != nil && callarg(ReadCh, 0, 3).Store == $seq[$i] &&
+//@            callarg(ReadCh, 0, 3).Owner == req.GetDatastore().GetOwner() && callarg(ReadCh, 0, 3).Priority == req.GetDatastore().GetPriority()
+//@   loop 1 invariant inserted_into_the_answer_tree: called(AddCacheUpdateRecursive) ==> callarg(AddCacheUpdateRecursive, 0, 0) == callres(NewTreeRoot, 0, 0).sharedEntryAttributes
+//@   loop 0 invariant inserted_into_the_answer_tree_: called(AddCacheUpdateRecursive) ==> callarg(AddCacheUpdateRecursive, 0, 0) == callres(NewTreeRoot, 0, 0).sharedEntryAttributes
+//@   internal rendered_in_the_requested_flavour: called(Marshal) ==> called(FinishInsertionPhase) &&
+//@            ite(ietf, called(ToJsonIETF) && !called(ToJson) && callarg(Marshal, 0, 0) == callres(ToJsonIETF, 0, 0) && callarg(ToJsonIETF, 0, 0) == callarg(FinishInsertionPhase, 0, 0),
+//@            called(ToJson) && !called(ToJsonIETF) && callarg(Marshal, 0, 0) == callres(ToJson, 0, 0) && callarg(ToJson, 0, 0) == callarg(FinishInsertionPhase, 0, 0))
+//@   internal the_tree_rendered_is_the_tree_filled: called(FinishInsertionPhase) && called(AddCacheUpdateRecursive) ==> callarg(FinishInsertionPhase, 0, 0) == callarg(AddCacheUpdateRecursive, 0, 0)
+//@   internal one_answer_the_rendering: result == nil && !called(Err) ==> called(Marshal) && ntrace() > n0 && isev(emitted(ntrace()-1), Send) && evarg(emitted(ntrace()-1), Send, 0) == out &&
+//@            jsonAnswer(asptr(evarg(emitted(ntrace()-1), Send, 1), *sdcpb.GetDataResponse), callres(Marshal, 0, 0)) &&
+//@            forall(i, n0, ntrace()-1, !isev(emitted(i), Send))
+//@   ensures success_renders_every_stored_update: result == nil && !called(Err) ==> forall(i, n0, ntrace(), isev(emitted(i), Recv) ==>
+//@            (i + 1 < ntrace() && isev(emitted(i+1), Called)) || skippedUpdate(asptr(evarg(emitted(i), Recv, 1), *cache.Update)))
+
+// assumed: a derived context is a context
+//@ extern context.WithCancel
+//@   noeffect
+//@   ensures r0 != nil
 //@ pred knownEncoding(e) = e == sdcpb.Encoding_STRING || e == sdcpb.Encoding_JSON || e == sdcpb.Encoding_JSON_IETF || e == sdcpb.Encoding_PROTO
 //@ func (*Datastore).Get
 //@   props C14
